@@ -860,6 +860,7 @@ func (bp *brokerProducer) run() {
 		} else {
 			output = nil
 		}
+		verifPoint("bp.iter", bp, output != nil)
 	}
 }
 
